@@ -2,6 +2,7 @@ package rules
 
 import (
 	"fmt"
+	"go/constant"
 	"go/token"
 	"go/types"
 	"sort"
@@ -509,6 +510,9 @@ func checkC10(p *core.Program, r *core.Report) {
 			if c, ok := x.(*ssa.Call); ok {
 				if f := c.Call.StaticCallee(); f == newErr || (fn == e.resume && f == e.tryResume) {
 					return true
+				} else if f != fn && c10ProducesRejection(f, newErr, 0) {
+					// generalised: the rejection is built by a helper of the package that this function forwards
+					return true
 				}
 			}
 		}
@@ -564,7 +568,7 @@ func checkC10(p *core.Program, r *core.Report) {
 			if ev == nil || core.IsNilConst(ev) || !isRejection(ev, fn) {
 				continue
 			}
-			code := rejectionCode(ev, newErr)
+			code := rejectionCode(ev, newErr, e.tryResume)
 			key := fn.Name() + "/rejection " + code
 			d := viol[fmt.Sprintf("%s/rejection@%s", fn.Name(), p.Pos(ret.Pos()))]
 			r.Check(d == "", "R1", key, p.Pos(ret.Pos()), "no persisted state is written on any path to this rejection",
@@ -579,13 +583,9 @@ func checkC10(p *core.Program, r *core.Report) {
 	r.Check(ec.fnEffect(prep, 0) == "", "R1", "prepareForSprint/only-transient-writes", p.Pos(prep.Pos()), "writes session.parentRun only", "prepareForSprint writes persisted state: "+ec.fnEffect(prep, 0))
 
 	// ------------------------------------------------------------------ R2
-	var acceptsCall *ssa.Call
-	for _, cs := range core.Calls(e.tryResume, false) {
-		if cs.Common().IsInvoke() && cs.Common().Method.Name() == "Accepts" {
-			acceptsCall, _ = cs.Instr.(*ssa.Call)
-		}
-	}
-	if !r.Check(acceptsCall != nil, "R2", "tryToResume/calls-Accepts", p.Pos(e.tryResume.Pos()), "Wait.Accepts(resume) is consulted", "tryToResume never asks the wait whether it accepts the resume") {
+	// generalised: the question may be asked in a helper of the package whose result tryToResume branches on
+	accept := c10FindAccept(e.tryResume, newErr)
+	if !r.Check(accept != nil, "R2", "tryToResume/calls-Accepts", p.Pos(e.tryResume.Pos()), "Wait.Accepts(resume) is consulted", "tryToResume never asks the wait whether it accepts the resume") {
 		return
 	}
 	// argument is the resume parameter
@@ -595,29 +595,10 @@ func checkC10(p *core.Program, r *core.Report) {
 			resumeP = prm
 		}
 	}
-	r.Check(resumeP != nil && acceptsCall.Call.Args[0] == ssa.Value(resumeP), "R2", "tryToResume/Accepts-argument", p.Pos(acceptsCall.Pos()), "asked about the resume being applied", "Accepts is asked about a different value than the resume that is applied")
+	r.Check(resumeP != nil && accept.resumeArg == ssa.Value(resumeP), "R2", "tryToResume/Accepts-argument", p.Pos(accept.inner.Pos()), "asked about the resume being applied", "Accepts is asked about a different value than the resume that is applied")
 	acceptedEdge := func(in ssa.Instruction) bool {
 		for _, ce := range core.ControllingConds(in.Block()) {
-			inSlice := false
-			neg := false
-			var walk func(v ssa.Value)
-			seen := map[ssa.Value]bool{}
-			walk = func(v ssa.Value) {
-				if seen[v] {
-					return
-				}
-				seen[v] = true
-				if v == ssa.Value(acceptsCall) {
-					inSlice = true
-					return
-				}
-				if u, ok := v.(*ssa.UnOp); ok && u.Op == token.NOT {
-					neg = !neg
-					walk(u.X)
-				}
-			}
-			walk(ce.Cond)
-			if inSlice && (ce.Taken != neg) {
+			if accepted, _ := accept.implies(ce.Cond, ce.Taken); accepted {
 				return true
 			}
 		}
@@ -735,10 +716,12 @@ func checkC10(p *core.Program, r *core.Report) {
 				why = "decided by " + cond.String()
 				if c, ok := cond.(*ssa.Call); ok && c.Call.IsInvoke() && c.Call.Method.Name() == "Accepts" && !taken {
 					why = ""
+				} else if _, rejected := accept.implies(cond, taken); rejected {
+					why = "" // the answer of a helper that produces its rejecting outcome only where Accepts is false
 				}
 			}
-			r.Check(why == "", "R3", key, p.Pos(ret.Pos()), "rejection "+rejectionCode(ev, newErr)+" on the edge where Wait.Accepts(resume) is false",
-				"tryToResume rejects the resume with an engine error ("+rejectionCode(ev, newErr)+") "+why+": a condition other than 'the wait does not accept this resume' must end the session as failed with a failure event, not leave it waiting")
+			r.Check(why == "", "R3", key, p.Pos(ret.Pos()), "rejection "+rejectionCode(ev, newErr, e.tryResume)+" on the edge where Wait.Accepts(resume) is false",
+				"tryToResume rejects the resume with an engine error ("+rejectionCode(ev, newErr, e.tryResume)+") "+why+": a condition other than 'the wait does not accept this resume' must end the session as failed with a failure event, not leave it waiting")
 		default:
 			fromLoop := false
 			for x := range core.BackSlice(ev, nil) {
@@ -824,6 +807,29 @@ func checkC10(p *core.Program, r *core.Report) {
 		per := map[string]int{}
 		for _, cs := range core.Calls(fn, false) {
 			cc := cs.Common()
+			if g := cc.StaticCallee(); g != nil && g.Blocks != nil && core.InModule(core.FuncPkgPath(g)) {
+				// generalised: the possibly-nil result is handed to a helper that invokes a method on that parameter
+				// without a nil test of its own — the obligation stays with the call site
+				for i, a := range cc.Args {
+					rc, ok := a.(*ssa.Call)
+					if !ok {
+						continue
+					}
+					o := core.CalleeObj(&rc.Call)
+					if o == nil || !nullable[core.ObjName(o)] || !c10DerefsParam(g, i, 0) {
+						continue
+					}
+					k := fn.Name() + "/" + core.ObjName(o) + "()->" + g.Name()
+					per[k]++
+					key := k
+					if per[k] > 1 {
+						key = fmt.Sprintf("%s#%d", k, per[k])
+					}
+					r.Check(nilGuarded(cs.Instr.Block(), rc), "R3", key, p.Pos(cs.Pos()), "argument nil-tested on every path",
+						"the result of "+core.ObjName(o)+"() is passed without a nil test to "+g.Name()+", which calls a method on it: a node that lost its router/wait between sprints panics instead of failing the session")
+				}
+				continue
+			}
 			if !cc.IsInvoke() {
 				continue
 			}
@@ -939,16 +945,212 @@ func btoi(b bool) int {
 	return 0
 }
 
-func rejectionCode(ev ssa.Value, newErr *ssa.Function) string {
+func rejectionCode(ev ssa.Value, newErr *ssa.Function, forwarded *ssa.Function) string {
+	if code := c10RejectionCodeIn(ev, newErr, forwarded, 0); code != "" {
+		return code
+	}
+	return "forwarded-from-tryToResume"
+}
+
+// c10RejectionCodeIn: the error code of the newError call ev derives from — in this function or (generalised) in a
+// helper whose result is forwarded; results of `forwarded` (tryToResume, judged on its own) are not entered.
+func c10RejectionCodeIn(ev ssa.Value, newErr *ssa.Function, forwarded *ssa.Function, depth int) string {
+	var helpers []*ssa.Function
 	for x := range core.BackSlice(ev, nil) {
-		if c, ok := x.(*ssa.Call); ok && c.Call.StaticCallee() == newErr {
+		c, ok := x.(*ssa.Call)
+		if !ok {
+			continue
+		}
+		g := c.Call.StaticCallee()
+		if g == newErr {
 			if s, ok := core.ConstString(c.Call.Args[0]); ok {
 				return s
 			}
 			return canon(c.Call.Args[0])
 		}
+		if g != nil && g != forwarded && g != c.Parent() && c10ProducesRejection(g, newErr, depth) {
+			helpers = append(helpers, g)
+		}
 	}
-	return "forwarded-from-tryToResume"
+	sort.Slice(helpers, func(i, j int) bool { return core.FuncName(helpers[i]) < core.FuncName(helpers[j]) })
+	for _, g := range helpers {
+		for _, ret := range core.Returns(g) {
+			if rv := errResult(ret); rv != nil && !core.IsNilConst(rv) {
+				if code := c10RejectionCodeIn(rv, newErr, forwarded, depth+1); code != "" {
+					return code
+				}
+			}
+		}
+	}
+	return ""
+}
+
+// c10ProducesRejection: g is a function of the module one of whose returns hands back an error built by newError
+// (directly or through another such function, two levels).
+func c10ProducesRejection(g *ssa.Function, newErr *ssa.Function, depth int) bool {
+	if g == nil || g == newErr || g.Blocks == nil || depth > 2 || !core.InModule(core.FuncPkgPath(g)) {
+		return false
+	}
+	for _, ret := range core.Returns(g) {
+		rv := errResult(ret)
+		if rv == nil || core.IsNilConst(rv) || core.ShortType(rv.Type()) != "error" {
+			continue
+		}
+		for x := range core.BackSlice(rv, nil) {
+			if c, ok := x.(*ssa.Call); ok {
+				if f := c.Call.StaticCallee(); f == newErr || (f != g && c10ProducesRejection(f, newErr, depth+1)) {
+					return true
+				}
+			}
+		}
+	}
+	return false
+}
+
+// c10AcceptAnswer: where tryToResume asks Wait.Accepts and how the answer reaches its branches — asked directly (outer
+// == inner, the condition is the call), or inside a helper of the package whose bool (true = accepted) or error (nil =
+// accepted) result tryToResume branches on.
+type c10AcceptAnswer struct {
+	inner, outer *ssa.Call
+	resumeArg    ssa.Value // in tryToResume: the value Accepts is asked about (nil = not a value of tryToResume)
+	isErr        bool      // the helper answers with an error
+	acceptedOnly bool      // the accepting outcome (true / nil) is produced only where Accepts returned true
+	rejectedOnly bool      // the rejecting outcome (false / non-nil) is produced only where Accepts returned false
+}
+
+// c10AcceptsEdge: the polarity with which the result of the Accepts call ac decides block b on every path: +1 the
+// true edge dominates b, -1 the false edge, 0 neither.
+func c10AcceptsEdge(b *ssa.BasicBlock, ac *ssa.Call) int {
+	for _, ce := range core.ControllingConds(b) {
+		cond, taken := ce.Cond, ce.Taken
+		for {
+			if un, ok := cond.(*ssa.UnOp); ok && un.Op == token.NOT {
+				cond, taken = un.X, !taken
+				continue
+			}
+			break
+		}
+		if cond == ssa.Value(ac) {
+			if taken {
+				return 1
+			}
+			return -1
+		}
+	}
+	return 0
+}
+
+// c10FindAccept locates the accept decision of fn (tryToResume): the last Wait.Accepts invoke in fn itself or in a
+// function of its package that fn calls directly (a check a refactoring extracted).
+func c10FindAccept(fn *ssa.Function, newErr *ssa.Function) *c10AcceptAnswer {
+	var a *c10AcceptAnswer
+	for _, ec := range core.EffectiveCalls(fn, 1) {
+		cc := ec.Inner.Common()
+		inner, isCall := ec.Inner.Instr.(*ssa.Call)
+		if !isCall || !cc.IsInvoke() || cc.Method.Name() != "Accepts" || len(cc.Args) != 1 {
+			continue
+		}
+		if len(ec.Chain) == 0 {
+			a = &c10AcceptAnswer{inner: inner, outer: inner, resumeArg: cc.Args[0], acceptedOnly: true, rejectedOnly: true}
+			continue
+		}
+		outer, isCall := ec.Outer.(*ssa.Call)
+		h := ec.Chain[0]
+		if !isCall || outer.Call.StaticCallee() != h || h.Signature.Results().Len() != 1 {
+			continue // a closure, a deferred call, or a helper with several results: not a shape this rule knows
+		}
+		b := &c10AcceptAnswer{inner: inner, outer: outer, acceptedOnly: true, rejectedOnly: true}
+		switch core.ShortType(h.Signature.Results().At(0).Type()) {
+		case "bool":
+		case "error":
+			b.isErr = true
+		default:
+			continue
+		}
+		// what the helper asks about is one of its parameters: the argument at the call
+		for i, prm := range h.Params {
+			if ssa.Value(prm) == cc.Args[0] && i < len(outer.Call.Args) {
+				b.resumeArg = outer.Call.Args[i]
+			}
+		}
+		var outcome func(v ssa.Value, blk *ssa.BasicBlock, depth int)
+		outcome = func(v ssa.Value, blk *ssa.BasicBlock, depth int) {
+			if phi, ok := v.(*ssa.Phi); ok && depth < 3 {
+				for i, ev := range phi.Edges {
+					outcome(ev, phi.Block().Preds[i], depth+1)
+				}
+				return
+			}
+			mayAccept, mayReject := true, true
+			if b.isErr {
+				switch {
+				case core.IsNilConst(v):
+					mayReject = false
+				case c10BuildsError(v, newErr):
+					mayAccept = false
+				}
+			} else if v == ssa.Value(inner) {
+				return // the answer itself
+			} else if c, ok := v.(*ssa.Const); ok && c.Value != nil && c.Value.Kind() == constant.Bool {
+				if constant.BoolVal(c.Value) {
+					mayReject = false
+				} else {
+					mayAccept = false
+				}
+			}
+			edge := c10AcceptsEdge(blk, inner)
+			if mayAccept && edge != 1 {
+				b.acceptedOnly = false
+			}
+			if mayReject && edge != -1 {
+				b.rejectedOnly = false
+			}
+		}
+		for _, ret := range core.Returns(h) {
+			outcome(ret.Results[0], ret.Block(), 0)
+		}
+		a = b
+	}
+	return a
+}
+
+// c10BuildsError: v is certainly a non-nil error: the result of newError (which returns a fresh *Error) or a fresh
+// object converted to the interface.
+func c10BuildsError(v ssa.Value, newErr *ssa.Function) bool {
+	switch x := v.(type) {
+	case *ssa.Call:
+		return x.Call.StaticCallee() == newErr
+	case *ssa.MakeInterface:
+		_, fresh := x.X.(*ssa.Alloc)
+		return fresh
+	}
+	return false
+}
+
+// implies: what taking the branch edge (cond, taken) in tryToResume says about the answer of Accepts.
+func (a *c10AcceptAnswer) implies(cond ssa.Value, taken bool) (accepted, rejected bool) {
+	for {
+		if un, ok := cond.(*ssa.UnOp); ok && un.Op == token.NOT {
+			cond, taken = un.X, !taken
+			continue
+		}
+		break
+	}
+	if !a.isErr {
+		if cond != ssa.Value(a.outer) {
+			return false, false
+		}
+		return taken && a.acceptedOnly, !taken && a.rejectedOnly
+	}
+	bo, ok := cond.(*ssa.BinOp)
+	if !ok || (bo.Op != token.EQL && bo.Op != token.NEQ) {
+		return false, false
+	}
+	if !(bo.X == ssa.Value(a.outer) && core.IsNilConst(bo.Y)) && !(bo.Y == ssa.Value(a.outer) && core.IsNilConst(bo.X)) {
+		return false, false
+	}
+	isNil := (bo.Op == token.EQL) == taken
+	return isNil && a.acceptedOnly, !isNil && a.rejectedOnly
 }
 
 func c10R4(p *core.Program, r *core.Report) {
